@@ -6,6 +6,7 @@ import (
 	"context"
 	"errors"
 	"fmt"
+	"slices"
 	"strings"
 	"time"
 
@@ -20,11 +21,45 @@ import (
 	"verif/simds"
 )
 
+// C05 scenarios on records.ValueStore alone (value-store, value-store-ds-errors;
+// c05_dht.go runs the same oracle around a whole node).
+//
+// Rules and the clause of the property each one encodes:
+//
+//	stored-invalid, accepted-invalid   "never stores a value record that its validator rejects or whose
+//	                                   embedded key differs from the key it is stored under". The validator
+//	                                   is the harness rank validator; its verdict depends on the KEY (the
+//	                                   value embeds the key it belongs to) and, in the time-aware
+//	                                   configuration, on the CLOCK (the value may carry an expiry). The
+//	                                   generator therefore draws, besides garbage and values for a key nobody
+//	                                   uses, values that are valid under ANOTHER key of the same run
+//	                                   ("other-key-value": "on the same or different keys", "every sequence
+//	                                   of ... invalid/mis-keyed records") and values whose validity ends at
+//	                                   an instant the clock advances across. A put is judged invalid only
+//	                                   when the verdict is the same at every instant of the operation.
+//	downgrade, refused-without-better  "never replaces a stored record by one its validator ranks worse".
+//	delete-fresh, get-missing,         "an acknowledged put is immediately readable until it ages out".
+//	unreadable-before-age-out
+//	served-expired,                    "records older than the configured maximum age are never served".
+//	served-expired-by-receipt
+//
+// The age of a record is the time since THIS node received it. The rules
+// served-expired / get-missing / delete-fresh read the age off the stored
+// record; served-expired-by-receipt / unreadable-before-age-out / the second
+// half of delete-fresh do not trust anything stored: the harness notes, on its
+// own clock, for every applied datastore write the window [start of the writing
+// operation, instant of the write] in which the node received that record, and
+// judges a read (or a delete) only when every receipt instant of that window
+// puts the record on the same side of the maximum age. To make the two clocks
+// differ, put records carry a drawn sender-supplied time_received field
+// (absent, well-formed now, unparsable, ante-dated, post-dated): "every
+// sequence of ... records", "every clock advance relative to the maximum age".
 func init() {
 	sim.Register(&sim.Scenario{Prop: "C05", Name: "value-store", Weight: 3, Run: func(s *sim.Sim) { runC05Store(s, false) },
-		Real:   []string{"records.ValueStore (Put/Get/StartGC sweep/Close)", "go-libp2p-record NamespacedValidator dispatch"},
-		Stub:   []string{"datastore (simds: every operation parks in the scheduler)", "validator (harness rank validator)", "lock hand-over (instrumented sync.Mutex calls, scheduler-owned)"},
-		Faults: []string{"lock_contended", "lock_yield", "time_advance", "probe_gc_delete", "probe_put_refused", "probe_concurrent_puts_same_key", "probe_get_expired", "probe_age_boundary_crossed"},
+		Real: []string{"records.ValueStore (Put/Get/StartGC sweep/Close)", "go-libp2p-record NamespacedValidator dispatch"},
+		Stub: []string{"datastore (simds: every operation parks in the scheduler)", "validator (harness rank validator)", "lock hand-over (instrumented sync.Mutex calls, scheduler-owned)"},
+		Faults: []string{"lock_contended", "lock_yield", "time_advance", "probe_gc_delete", "probe_put_refused", "probe_concurrent_puts_same_key", "probe_get_expired", "probe_age_boundary_crossed",
+			"probe_put_sender_stamp_acked", "probe_put_other_key_value", "probe_put_value_expired", "probe_receipt_fresh_read", "probe_receipt_stale_read"},
 	})
 	sim.Register(&sim.Scenario{Prop: "C05", Name: "value-store-ds-errors", Weight: 1, Run: func(s *sim.Sim) { runC05Store(s, true) },
 		Real:   []string{"records.ValueStore (Put/Get/StartGC sweep/Close)"},
@@ -40,6 +75,97 @@ type c05Oracle struct {
 	maxAge time.Duration
 	// nsPrefixes: datastore key prefixes the value store may touch
 	owned func(dskey string) bool
+	// timeAware: the validator honours the expiry embedded in a value
+	timeAware bool
+
+	// Receipt bookkeeping on the harness clock (nothing here is read from the
+	// stored bytes). recvLo is supplied by the scenario: the earliest instant at
+	// which the operation performing write r can have handed its record to the
+	// node (ok=false: writer unknown, the scenario start is assumed).
+	recvLo  func(r *simds.Rec) (time.Duration, bool)
+	receipt map[int]c05Receipt // log number of an applied write -> receipt window of the record it stored
+	content map[string]int     // datastore key -> log number of the write that produced its current content
+	readSaw map[int]int        // log number of an applied read -> log number of the write whose content it saw
+}
+
+// c05Receipt: the node received the record some time in [lo, hi].
+type c05Receipt struct{ lo, hi time.Duration }
+
+// c05Stamp renders the sender-supplied time_received field of a put record.
+// span is the scenario's own maximum age (an hour when expiry is disabled).
+func c05Stamp(kind int, span time.Duration) string {
+	if span <= 0 {
+		span = time.Hour
+	}
+	now := time.Now()
+	f := func(t time.Time) string { return t.UTC().Format(time.RFC3339Nano) }
+	switch kind {
+	case 1:
+		return f(now)
+	case 2:
+		return "not a time"
+	case 3:
+		return f(now.Add(-span - time.Minute))
+	case 4:
+		return f(now.Add(-1000 * time.Hour))
+	case 5:
+		return f(now.Add(span + time.Minute))
+	case 6:
+		return f(now.Add(1000 * time.Hour))
+	}
+	return ""
+}
+
+const c05StampKinds = 7
+
+// validAt is the harness validator's verdict on (key, value) at instant at.
+func (o *c05Oracle) validAt(key string, value []byte, at time.Time) bool {
+	_, expiry, k, err := parseRankValue(value)
+	if err != nil || k != key {
+		return false
+	}
+	if o.timeAware && !expiry.IsZero() && !at.Before(expiry) {
+		return false
+	}
+	return true
+}
+
+// receiptAge bounds, on the harness clock, the age at the instant of read (or
+// delete) r of the content it saw, written by log entry w.
+func (o *c05Oracle) receiptAge(w int, at time.Duration) (lo, hi time.Duration, ok bool) {
+	rc, ok := o.receipt[w]
+	if !ok {
+		return 0, 0, false
+	}
+	return at - rc.hi, at - rc.lo, true
+}
+
+// byReceipt classifies what applied read r saw, using the harness clock only:
+// "fresh" (valid record, younger than the maximum age whenever in its receipt
+// window it arrived), "stale" (older than the maximum age whenever it arrived)
+// or "" (no valid record, written behind the store's back, expiry disabled, or
+// the window straddles the maximum age).
+func (o *c05Oracle) byReceipt(r *simds.Rec) string {
+	if o.maxAge <= 0 || !r.Found {
+		return ""
+	}
+	w, ok := o.readSaw[r.N]
+	if !ok {
+		return ""
+	}
+	if _, _, ok := o.parseStored(r.Key, r.Val); !ok {
+		return ""
+	}
+	lo, hi, ok := o.receiptAge(w, r.At)
+	switch {
+	case !ok:
+		return ""
+	case hi < o.maxAge:
+		return "fresh"
+	case lo > o.maxAge:
+		return "stale"
+	}
+	return ""
 }
 
 // decodeDsKey recovers the record key from a value datastore key
@@ -59,6 +185,11 @@ func decodeDsKey(dskey string) (string, bool) {
 // parseStored returns the record stored in bytes if it is well-formed, filed
 // under dskey and accepted by the validator.
 func (o *c05Oracle) parseStored(dskey string, data []byte) (rec *recpb.Record, rank int, ok bool) {
+	return o.parseStoredAt(dskey, data, time.Now())
+}
+
+// parseStoredAt is parseStored with the validator's clock set to at.
+func (o *c05Oracle) parseStoredAt(dskey string, data []byte, at time.Time) (rec *recpb.Record, rank int, ok bool) {
 	rec = new(recpb.Record)
 	if proto.Unmarshal(data, rec) != nil {
 		return nil, 0, false
@@ -67,7 +198,7 @@ func (o *c05Oracle) parseStored(dskey string, data []byte) (rec *recpb.Record, r
 	if !kok || string(rec.GetKey()) != key {
 		return nil, 0, false
 	}
-	if o.val.Validate(key, rec.GetValue()) != nil {
+	if !o.validAt(key, rec.GetValue(), at) {
 		return nil, 0, false
 	}
 	rank, _, _, _ = parseRankValue(rec.GetValue())
@@ -85,13 +216,31 @@ func (o *c05Oracle) age(rec *recpb.Record) (time.Duration, bool) {
 // onApply is called for every applied datastore operation.
 func (o *c05Oracle) onApply(r *simds.Rec) {
 	s := o.s
+	if o.receipt == nil {
+		o.receipt, o.content, o.readSaw = map[int]c05Receipt{}, map[string]int{}, map[int]int{}
+	}
 	switch r.Op {
+	case "get":
+		if w, ok := o.content[r.Key]; ok && r.Found {
+			o.readSaw[r.N] = w
+		}
 	case "put":
 		if !o.owned(r.Key) {
 			s.Violate("foreign-write", "value store wrote datastore key %s outside its namespaces", r.Key)
 			return
 		}
-		_, rank, ok := o.parseStored(r.Key, r.Val)
+		// receipt window of the record this write stores
+		rc := c05Receipt{lo: 0, hi: r.At}
+		if o.recvLo != nil {
+			if lo, ok := o.recvLo(r); ok {
+				rc.lo = lo
+			}
+		}
+		o.receipt[r.N], o.content[r.Key] = rc, r.N
+		// The validator ran at some instant of the writing operation: demand
+		// validity at the earliest one (a verdict can only turn from valid to
+		// invalid as the clock advances).
+		_, rank, ok := o.parseStoredAt(r.Key, r.Val, s.Start.Add(rc.lo))
 		if !ok {
 			s.Violate("stored-invalid", "value store stored bytes under %s that are not a valid record for that key", r.Key)
 			return
@@ -106,6 +255,8 @@ func (o *c05Oracle) onApply(r *simds.Rec) {
 			s.Violate("foreign-delete", "value store deleted datastore key %s outside its namespaces", r.Key)
 			return
 		}
+		w, wok := o.content[r.Key]
+		delete(o.content, r.Key)
 		if !r.Found {
 			return
 		}
@@ -121,6 +272,13 @@ func (o *c05Oracle) onApply(r *simds.Rec) {
 		if aok && age < o.maxAge {
 			s.Violate("delete-fresh", "valid record under %s deleted at age %v, max age %v", r.Key, age, o.maxAge)
 		}
+		// the same on the harness clock: even if the node received the record at
+		// the very start of the operation that wrote it, it is not max-age old yet
+		if wok {
+			if _, hi, ok := o.receiptAge(w, r.At); ok && hi < o.maxAge {
+				s.Violate("delete-fresh", "valid record under %s deleted at most %v after the node received it (harness clock), max age %v; its stored time_received is %q", r.Key, hi, o.maxAge, rec.GetTimeReceived())
+			}
+		}
 		s.Count("probe_gc_delete")
 	}
 }
@@ -131,9 +289,13 @@ type c05Op struct {
 	kind    string // put get
 	key     string
 	rank    int
-	flavor  string // valid invalid miskeyed-value
+	flavor  string // valid invalid miskeyed-value other-key-value
+	other   string // other-key-value: the key the value belongs to
+	stamp   int    // sender-supplied time_received (c05Stamp kind, 0 = none)
+	expiry  time.Time
 	tag     string
 	started bool
+	startAt time.Duration // harness clock when the operation was handed to the store
 	done    bool
 	err     error
 	got     *recpb.Record
@@ -155,14 +317,18 @@ func runC05Store(s *sim.Sim, dsErrors bool) {
 	allKeys := []string{"/v/a1", "/v/b1", "/v/c2", "/v/d1"}
 	keys := allKeys[:s.Range("keys", 1, 4)]
 
-	rv := rankValidator{}
+	// a third of the runs: validity also depends on the clock (values may carry
+	// an expiry instant drawn around the time advances of the schedule)
+	timeAware := s.Chance("time-aware", 1, 3)
+	expiries := []time.Time{{}, s.Start.Add(2 * time.Minute), s.Start.Add(9 * time.Minute), s.Start.Add(45 * time.Minute)}
+	rv := rankValidator{TimeAware: timeAware}
 	var validator record.Validator = rv
 	if namespaced {
 		validator = record.NamespacedValidator{"v": rv}
 	}
 	d := simds.New(s, "ds")
 	d.ParkOp = func(op, key string) bool { return true }
-	or := &c05Oracle{s: s, val: rv, maxAge: maxAge, owned: func(k string) bool { return strings.HasPrefix(k, "/v/") }}
+	or := &c05Oracle{s: s, val: rv, maxAge: maxAge, timeAware: timeAware, owned: func(k string) bool { return strings.HasPrefix(k, "/v/") }}
 	d.OnApply = or.onApply
 	// foreign data the store must leave alone
 	d.Poke("/providers/xyz", []byte("prov"))
@@ -174,7 +340,7 @@ func runC05Store(s *sim.Sim, dsErrors bool) {
 	defer gcCancel()
 	vs.StartGC(gcCtx, gcEvery)
 
-	s.Summary["cfg"] = fmt.Sprintf("namespaced=%v maxAge=%v gc=%v clients=%d ops=%d keys=%d yieldAll=%v dsErrors=%v", namespaced, maxAge, gcEvery, nClients, nOps, len(keys), s.YieldSites["*"], dsErrors)
+	s.Summary["cfg"] = fmt.Sprintf("namespaced=%v maxAge=%v gc=%v clients=%d ops=%d keys=%d yieldAll=%v dsErrors=%v timeAware=%v", namespaced, maxAge, gcEvery, nClients, nOps, len(keys), s.YieldSites["*"], dsErrors, timeAware)
 
 	ops := make([]*c05Op, nOps)
 	for i := range ops {
@@ -189,11 +355,32 @@ func runC05Store(s *sim.Sim, dsErrors bool) {
 				o.flavor = "invalid"
 			case 1:
 				o.flavor = "miskeyed-value"
+			case 2:
+				// a value that is valid, but under another key of this run
+				o.flavor = "valid"
+				if len(keys) > 1 {
+					o.flavor = "other-key-value"
+					o.other = keys[(slices.Index(keys, o.key)+1+s.Draw("other-key", len(keys)-1))%len(keys)]
+				}
 			default:
 				o.flavor = "valid"
 			}
+			o.stamp = s.Draw("stamp", c05StampKinds)
+			if timeAware {
+				o.expiry = expiries[s.Draw("expiry", len(expiries))]
+			}
 		}
 		ops[i] = o
+	}
+	byTag := map[string]*c05Op{}
+	for _, o := range ops {
+		byTag["@"+o.tag] = o
+	}
+	or.recvLo = func(r *simds.Rec) (time.Duration, bool) {
+		if o := byTag[r.Tag]; o != nil && o.started {
+			return o.startAt, true
+		}
+		return 0, false
 	}
 	var clients opSet
 	for c := 0; c < nClients; c++ {
@@ -205,6 +392,7 @@ func runC05Store(s *sim.Sim, dsErrors bool) {
 				}
 				s.Park("client", fmt.Sprintf("c%d:%s", c, o.tag), nil, o)
 				ctx := sim.WithTag(context.Background(), o.tag)
+				o.startAt = s.Now()
 				o.started = true
 				switch o.kind {
 				case "get":
@@ -215,11 +403,13 @@ func runC05Store(s *sim.Sim, dsErrors bool) {
 					case "invalid":
 						val = []byte("not a rank value")
 					case "miskeyed-value":
-						val = rankValue(o.rank, time.Time{}, o.key+"x")
+						val = rankValue(o.rank, o.expiry, o.key+"x")
+					case "other-key-value":
+						val = rankValue(o.rank, o.expiry, o.other)
 					default:
-						val = rankValue(o.rank, time.Time{}, o.key)
+						val = rankValue(o.rank, o.expiry, o.key)
 					}
-					o.err = vs.Put(ctx, o.key, &recpb.Record{Key: []byte(o.key), Value: val})
+					o.err = vs.Put(ctx, o.key, &recpb.Record{Key: []byte(o.key), Value: val, TimeReceived: c05Stamp(o.stamp, maxAge)})
 				}
 				o.at = time.Now()
 				o.done = true
@@ -257,13 +447,28 @@ func runC05Store(s *sim.Sim, dsErrors bool) {
 				if o.err == nil && o.flavor != "valid" {
 					s.Violate("accepted-invalid", "Put of a %s record for %s was accepted", o.flavor, o.key)
 				}
+				if o.flavor == "other-key-value" {
+					s.Count("probe_put_other_key_value")
+				}
+				// a value whose validity had ended before the operation began is
+				// rejected by the validator at every instant of the operation
+				if o.flavor == "valid" && !o.expiry.IsZero() && !s.Start.Add(o.startAt).Before(o.expiry) {
+					s.Count("probe_put_value_expired")
+					if o.err == nil {
+						s.Violate("accepted-invalid", "Put of a record for %s whose value expired %v before the operation began was accepted", o.key, s.Start.Add(o.startAt).Sub(o.expiry))
+					}
+				}
+				if o.err == nil && o.stamp != 0 {
+					s.Count("probe_put_sender_stamp_acked")
+				}
 				if errors.Is(o.err, records.ErrOldRecord) {
 					s.Count("probe_put_refused")
 					// refused: at its own read a record ranked at least as good was stored
+					// (valid at least at the beginning of the operation)
 					okRefusal := false
 					for _, r := range mine {
 						if r.Op == "get" && r.Found {
-							if _, old, ok := or.parseStored(r.Key, r.Val); ok && old >= o.rank {
+							if _, old, ok := or.parseStoredAt(r.Key, r.Val, s.Start.Add(o.startAt)); ok && old >= o.rank {
 								okRefusal = true
 							}
 						}
@@ -305,6 +510,19 @@ func runC05Store(s *sim.Sim, dsErrors bool) {
 						}
 					}
 					continue
+				}
+				// harness clock: the record's receipt window decides, whatever is stored
+				switch or.byReceipt(first) {
+				case "fresh":
+					s.Count("probe_receipt_fresh_read")
+					if o.got == nil {
+						s.Violate("unreadable-before-age-out", "Get %s returned nothing although the stored record reached the store less than the max age %v before the read (harness clock); its stored time_received is %q", o.key, maxAge, rec.GetTimeReceived())
+					}
+				case "stale":
+					s.Count("probe_receipt_stale_read")
+					if o.got != nil {
+						s.Violate("served-expired-by-receipt", "Get %s served a record that reached the store more than the max age %v before the read (harness clock); its stored time_received is %q", o.key, maxAge, rec.GetTimeReceived())
+					}
 				}
 				age, aok := or.age(rec)
 				// age as of the read instant
